@@ -607,6 +607,10 @@ pub fn gen_terms(rng: &mut Prng, n: usize) -> Vec<usize> {
 }
 
 fn gen_plain_any(rng: &mut Prng, w: &World) -> Plaintext {
+    // a freshly constructed plaintext (no coefficients at all) is a legitimate object too
+    if rng.chance(1, 16) {
+        return Plaintext::new();
+    }
     if w.spec.scheme == CKKS {
         let level = *rng.pick(&w.data_levels());
         w.random_ckks_plain(rng, Some(level))
@@ -696,13 +700,18 @@ pub fn gen_obj(rng: &mut Prng, w: &World, kind: &str) -> Option<Obj> {
         "parmsid" => Obj::ParmsId(*rng.pick(&w.data_levels())),
         "plain" => Obj::Plain(gen_plain_any(rng, w)),
         "sk" => Obj::Sk(w.sk.clone()),
-        "ct" => {
+        "ct" | "ctfull" => {
             let max = if rng.chance(1, 4) { 16 } else { 5 };
-            Obj::Ct(gen_cipher(rng, w, true, max))
-        }
-        "ctfull" => {
-            let max = if rng.chance(1, 4) { 16 } else { 5 };
-            Obj::CtFull(gen_cipher(rng, w, true, max))
+            let c = if rng.chance(1, 12) {
+                // bound to a level of the context but (still) without polynomials, or with one only
+                let mut c = Ciphertext::new();
+                c.resize(&w.ctx, &rng.pick(&w.data_levels()).clone(), rng.range(0, 1));
+                c.set_is_ntt_form(w.default_ntt());
+                c
+            } else {
+                gen_cipher(rng, w, true, max)
+            };
+            if kind == "ct" { Obj::Ct(c) } else { Obj::CtFull(c) }
         }
         "ctterms" => Obj::CtTerms(gen_cipher(rng, w, true, 3), gen_terms(rng, n)),
         "pk" => Obj::Pk(w.keygen.create_public_key(rng.coin())),
